@@ -228,6 +228,13 @@ type CmpV struct {
 	C   uint64
 }
 
+// MapV is a map built from constant keys (a lookup table).
+type MapV struct {
+	M       map[uint64]Value
+	ElemT   types.Type
+	Unknown bool // updated with a key that is not a constant
+}
+
 type SliceV struct {
 	Buf    *Buf
 	Off    *Aff // element offset of the slice start within Buf (nil = unknown)
@@ -354,6 +361,11 @@ type Engine struct {
 	noteSeen map[string]bool
 	elemObjs map[string]*Object
 	Trace    func(string)
+	// FieldConst: integer fields of the symbolic receiver assumed to hold a constant (by field name);
+	// ListLen: list fields of the receiver assumed to have a constant length. The analysis then describes
+	// the receivers with those values only.
+	FieldConst map[string]uint64
+	ListLen    map[string]int64
 }
 
 func New(pkg *ssa.Package) *Engine {
